@@ -52,7 +52,7 @@ theorem blRun_inv (n : Nat) (s : HubSt) (t : HTrace) (evs : List HEv) (h : BlInv
   | cons ev evs ih =>
     simp only [hubRun]
     by_cases ha : s.alive = true
-    · simp only [ha, if_true]; exact ih _ _ (h.step ev)
+    · simp only [ha, if_true]; exact ih _ _ (h.step ha ev)
     · simp only [ha]; exact ih _ _ h
 
 /-- the hub after its construction by `newShared…` (all slots registered, no demand yet) -/
@@ -81,24 +81,27 @@ theorem partition_correct : PartitionClause := by
   intro n m evs hc hi i hlt
   exact (ptRun_inv n m _ _ evs ⟨allLive_init n, rfl, fun _ hv => by simp [hubInit] at hv, fun _ _ => rfl⟩ hc hi).all i hlt
 
-/-- BALANCE, as the property demands it: every handled element is sent to exactly one branch, each branch in order -/
+/-- BALANCE (after fix 61853f2), for every message sequence, slot cancellations included: the elements sent
+    so far are, in order, a prefix of the elements handled, each sent to exactly one branch in range; once the hub
+    has told the branches streamComplete everything handled has been sent, and the input is then an interleaving of
+    the per-branch sequences. -/
 def BalanceClause : Prop :=
   ∀ (n : Nat) (evs : List HEv),
-    Interleave (projs n (hubRun .balance (hubInit n) evs).2.sent) (hubRun .balance (hubInit n) evs).2.ins
+    let r := hubRun .balance (hubInit n) evs
+    r.2.sent.map (·.2) <+: r.2.ins ∧
+    Interleave (projs n r.2.sent) (r.2.sent.map (·.2)) ∧
+    (r.2.completed = true → Interleave (projs n r.2.sent) r.2.ins)
 
-/-- BALANCE under the guard: no element arrived while no live branch had demand -/
-def BalanceClauseGuarded : Prop :=
-  ∀ (n : Nat) (evs : List HEv), (hubRun .balance (hubInit n) evs).2.dropped = false →
-    Interleave (projs n (hubRun .balance (hubInit n) evs).2.sent) (hubRun .balance (hubInit n) evs).2.ins
-
-theorem balance_guarded : BalanceClauseGuarded := by
-  intro n evs hd
+theorem balance_correct : BalanceClause := by
+  intro n evs
   have h : BlInv n (hubRun .balance (hubInit n) evs).1 (hubRun .balance (hubInit n) evs).2 :=
-    blRun_inv n (HubSt.init n) {} evs ⟨rfl, fun _ hp => by simp at hp, fun _ => rfl⟩
-  have he := h.exact hd
-  have := interleave_projs n _ h.tags
-  rw [he] at this
-  exact this
+    blRun_inv n (HubSt.init n) {} evs ⟨rfl, fun _ hp => by simp at hp, rfl, fun _ => rfl, fun _ => rfl⟩
+  have hi := interleave_projs n _ h.tags
+  refine ⟨by rw [← h.order]; exact List.prefix_append _ _, hi, fun hc => ?_⟩
+  have hb := h.done hc
+  have ho := h.order
+  rw [hb, List.append_nil] at ho
+  rw [← ho]; exact hi
 
 /-- MERGE: see `merge_correct` -/
 def MergeClause : Prop :=
@@ -119,34 +122,9 @@ def ConcatClause : Prop :=
 def C46_full : Prop :=
   MergeClause ∧ ConcatClause ∧ BroadcastClause ∧ BalanceClause ∧ PartitionClause
 
-/-- witness: the balance hub is handed an element before any branch has signalled demand -/
-theorem balance_witness :
-    (hubRun .balance (hubInit 2) [.elem (.int 5)]).2.sent = [] ∧
-    (hubRun .balance (hubInit 2) [.elem (.int 5)]).2.ins = [.int 5] := by decide
-
-theorem interleave_nil_out {α : Type} {srcs : List (List α)} {x : α} {out : List α}
-    (h : Interleave srcs (x :: out)) : ∃ (i : Nat) (rest : List α), srcs[i]? = some (x :: rest) := by
-  cases h with
-  | cons i x rest hs _ => exact ⟨i, rest, hs⟩
-
-theorem C46_refuted : ¬ C46_full := by
-  intro h
-  have hb := h.2.2.2.1 2 [.elem (.int 5)]
-  rw [balance_witness.1, balance_witness.2] at hb
-  obtain ⟨i, rest, hi⟩ := interleave_nil_out hb
-  have : ∀ i : Nat, (projs 2 ([] : List (Nat × Val)))[i]? ≠ some (Val.int 5 :: rest) := by
-    intro i
-    match i with
-    | 0 => simp [projs, proj]
-    | 1 => simp [projs, proj]
-    | (k + 2) => simp [projs]
-  exact this i hi
-
-/-- everything except the unguarded Balance clause holds; Balance holds whenever no element met zero demand -/
-theorem C46_partial :
-    MergeClause ∧ ConcatClause ∧ BroadcastClause ∧ BalanceClauseGuarded ∧ PartitionClause :=
+theorem C46_holds : C46_full :=
   ⟨fun n evs hw => merge_correct n evs hw, fun n evs hw => concat_correct n evs hw,
-   broadcast_correct, balance_guarded, partition_correct⟩
+   broadcast_correct, balance_correct, partition_correct⟩
 
 /-! ### non-vacuity -/
 
@@ -157,8 +135,10 @@ example : (mergeRun (mergeInit 2) [JEv.req 2, .value 0 (.int 1), .value 1 (.int 
     (mergeRun (mergeInit 2) [JEv.req 2, .value 0 (.int 1), .value 1 (.int 10), .done 0, .done 1]).2.sent =
       [(0, .int 1), (1, .int 10)] := by decide
 
-example : (hubRun .balance (hubInit 2) [.slotDemand 0 1, .slotDemand 1 1, .elem (.int 5), .elem (.int 6)]).2.dropped = false ∧
-    (hubRun .balance (hubInit 2) [.slotDemand 0 1, .slotDemand 1 1, .elem (.int 5), .elem (.int 6)]).2.sent =
-      [(0, .int 5), (1, .int 6)] := by decide
+/-- an element that arrives before any demand is kept and delivered when demand arrives (the former finding C46-F1) -/
+example : (hubRun .balance (hubInit 2) [.elem (.int 5), .slotDemand 1 1, .elem (.int 6), .complete, .slotDemand 0 3]).2.sent =
+      [(1, .int 5), (0, .int 6)] ∧
+    (hubRun .balance (hubInit 2) [.elem (.int 5), .slotDemand 1 1, .elem (.int 6), .complete, .slotDemand 0 3]).2.completed = true := by
+  decide
 
 end GoaktVerif.C46
